@@ -6,6 +6,8 @@ Case kinds (field 'k'):
   buffer   {'timeout': ticks | None, 'script': [['sub', a] | ['adv', ticks]]}
   batcher  {'cfg': {option: value | absent}, 'script': [['call', key] | ['fin', b] | ['adv', ticks]]}
   loops    {'cfg', 'form', 'par', 'plan': [['seg', loop, script] | ['close', loop]]}
+  cache2 / buffer2 / batcher2   ONE options-form decorator object applied to TWO functions vs. two direct
+           wrappings (buffer2: [['sub', j, a] | ['adv', t]]; batcher2: [['call', j, k] | ['fin', j, b] | ['adv', t]])
 buffer / batcher cases are run under direct, deco and ctor (the class itself).
 Option values are integer ticks / counts; None or absent = default."""
 from __future__ import annotations
@@ -26,7 +28,8 @@ HEADER = ('From Coq Require Import List NArith. Import ListNotations.\n'
           'Require Import Aiuti.Keys Aiuti.Case_C14 Aiuti.Options Aiuti.Case_C15 AiutiGen.T_KeyExpr.')
 CASE_TYPE = 'Case_C15.case'
 VERDICT = 'Case_C15.verdict'
-CLEAN_FOR_THOROUGH = ['theories/OptionsInv.vo']  # proofs only
+CLEAN_FOR_THOROUGH = ['theories/OptionsInv.vo', 'theories/OptionsMon.vo', 'theories/OptionsRefInv.vo',
+                      'theories/OptionsRefBat.vo']  # proofs only
 PARALLEL = 16
 CHUNK = 300
 
@@ -40,6 +43,10 @@ def run_impl(case):
                     deco=K14.run_impl(dict(case, form='deco')))
     if k == 'cache2':
         return {f: run_cache2(case, f) for f in ('direct', 'deco')}
+    if k == 'buffer2':
+        return {f: D.run_buffer2(case['timeout'], case['script'], f) for f in ('direct', 'deco')}
+    if k == 'batcher2':
+        return {f: D.run_batcher2(case['cfg'], case['script'], f) for f in ('direct', 'deco')}
     if k == 'buffer':
         return {f: D.run_buffer(case['timeout'], case['script'], f) for f in ('direct', 'deco', 'ctor')}
     if k == 'batcher':
@@ -120,7 +127,11 @@ def error_obs(case, o):
         return dict(direct=e, deco=e)
     if k == 'buffer':
         return dict(direct=[[0, [D.EXC]]], deco=[], ctor=[])
+    if k == 'buffer2':
+        return dict(direct=[[[0, [D.EXC]]], []], deco=[[], []])
     bad = dict(starts=[], dones=[[0, D.EXC]])
+    if k == 'batcher2':
+        return dict(direct=[bad, bad], deco=[dict(starts=[], dones=[]), bad])
     if k == 'batcher':
         return dict(direct=bad, deco=dict(starts=[], dones=[]), ctor=bad, cross=1)
     return dict(loops=[[0, bad]], solo=[], cross=1)
@@ -166,6 +177,27 @@ def _flushes(fl):
     return C.coq_list([f'({C.coq_N(t)}, {_nats(a)})' for t, a in fl])
 
 
+def _timeout(case):
+    return 'None' if case['timeout'] is None else f"(Some {_N5(case['timeout'])})"
+
+
+def _bufscript2(sc):
+    return C.coq_list([f'Sub2 {C.coq_nat(e[1])} {C.coq_nat(e[2])}' if e[0] == 'sub' else f'BAdv2 {_N5(e[1])}'
+                       for e in sc])
+
+
+def _bscript2(sc):
+    out = []
+    for e in sc:
+        if e[0] == 'call':
+            out.append(f'BCall2 {C.coq_nat(e[1])} {C.coq_nat(e[2])}')
+        elif e[0] == 'fin':
+            out.append(f'BFin2 {C.coq_nat(e[1])} {C.coq_nat(e[2])}')
+        else:
+            out.append(f'Adv2 {_N5(e[1])}')
+    return C.coq_list(out)
+
+
 def _plan(plan):
     return C.coq_list([f'LSeg {s[1]} {_bscript(s[2])}' if s[0] == 'seg' else f'LClose {s[1]}' for s in plan])
 
@@ -181,6 +213,12 @@ def to_coq(case, o):
         e0, e1 = K14._evs(dict(events=case['ev0'])), K14._evs(dict(events=case['ev1']))
         return (f"CCache2 {e0} {e1} {f(o['direct'][0])} {f(o['deco'][0])} "
                 f"{f(o['direct'][1])} {f(o['deco'][1])}")
+    if k == 'buffer2':
+        return (f"CBuffer2 {_timeout(case)} {_bufscript2(case['script'])} {_flushes(o['direct'][0])} "
+                f"{_flushes(o['deco'][0])} {_flushes(o['direct'][1])} {_flushes(o['deco'][1])}")
+    if k == 'batcher2':
+        return (f"CBatcher2 {_ocfg(case['cfg'])} {_bscript2(case['script'])} {_btrace(o['direct'][0])} "
+                f"{_btrace(o['deco'][0])} {_btrace(o['direct'][1])} {_btrace(o['deco'][1])}")
     if k == 'buffer':
         t = 'None' if case['timeout'] is None else f"(Some {_N5(case['timeout'])})"
         sc = C.coq_list([f'Sub {C.coq_nat(e[1])}' if e[0] == 'sub' else f'BAdv {_N5(e[1])}' for e in case['script']])
@@ -200,6 +238,10 @@ def explain_exprs(case, o):
                 K14.explain_exprs(dict(kind='default', events=case['ev1']), o['deco'][1]))
     if k == 'cache':
         return K14.explain_exprs(case, o['deco'])
+    if k == 'buffer2':
+        return [f"buf_trace {_timeout(case)} (bproj {j} {_bufscript2(case['script'])})" for j in (0, 1)]
+    if k == 'batcher2':
+        return [f"trace_of (brun (resolve {_ocfg(case['cfg'])}) (cproj {j} {_bscript2(case['script'])}))" for j in (0, 1)]
     if k == 'buffer':
         t = 'None' if case['timeout'] is None else f"(Some {_N5(case['timeout'])})"
         sc = C.coq_list([f'Sub {C.coq_nat(e[1])}' if e[0] == 'sub' else f'BAdv {_N5(e[1])}' for e in case['script']])
@@ -231,6 +273,16 @@ def buffer_case(timeout, script):
 
 def batcher_case(cfg, script):
     return dict(k='batcher', cfg={o: cfg[o] for o in OPTS if cfg.get(o) is not None}, script=[list(e) for e in script])
+
+
+def buffer2_case(timeout, script):
+    """one buffer_until_timeout(timeout=...) decorator object applied to two functions"""
+    return dict(k='buffer2', timeout=timeout, script=[list(e) for e in script])
+
+
+def batcher2_case(cfg, script):
+    """one async_background_batcher(**opts) decorator object applied to two batch functions"""
+    return dict(k='batcher2', cfg={o: cfg[o] for o in OPTS if cfg.get(o) is not None}, script=[list(e) for e in script])
 
 
 def loops_case(cfg, plan, form='deco', par=False):
@@ -268,6 +320,26 @@ BUF_PROBES = [
 T_VALUES = [1, 3, 10, 50, 200]
 
 
+s2, c2, f2 = (lambda j, x: ['sub', j, x]), (lambda j, k: ['call', j, k]), (lambda j, b: ['fin', j, b])
+# two functions, one decorator object: arguments / keys of the two functions overlap on purpose
+BUF2_PROBES = [
+    [s2(0, 0), s2(1, 1), a(2), s2(1, 2), a(4), s2(0, 3), a(2000)],
+    [s2(0, 0), a(1), s2(1, 0), a(1), s2(0, 1), a(1), s2(1, 1), a(1), s2(0, 2), a(3000), s2(1, 2), a(3000)],
+    [s2(1, 5), s2(1, 6), a(60), s2(0, 5), a(2000), s2(0, 6), s2(1, 7), a(2000)],
+]
+BAT2_PROBES = [
+    [c2(0, 1), c2(1, 1), c2(0, 2), c2(1, 3), a(60), f2(0, 0), a(2), c2(1, 1), f2(1, 0), c2(0, 1), a(60), f2(0, 1),
+     f2(1, 1), a(60)],
+    [c2(0, 1), c2(0, 2), c2(0, 3), a(60), c2(1, 1), c2(1, 2), c2(1, 3), c2(1, 4), a(60), f2(1, 0), f2(0, 0), a(1),
+     f2(0, 1), f2(1, 1), a(60), f2(0, 2), f2(1, 2), f2(1, 3), a(60)],
+    [c2(1, 7), a(3), c2(0, 7), a(3), c2(1, 8), a(100), f2(1, 0), f2(0, 0), a(4), c2(0, 7), c2(1, 7), a(100), f2(0, 1),
+     f2(1, 1), f2(1, 2), a(60)],
+]
+BAT2_CFGS = [{}, dict(max_batch_size=2), dict(max_batch_size=2, retention_timeout=40),
+             dict(max_batch_size=1, max_concurrent_batches=1, batch_timeout=5, retention_timeout=5),
+             dict(max_concurrent_batches=1, batch_timeout=2), dict(batch_timeout=10, retention_timeout=5)]
+
+
 def _succ_plan(n, close, sc):
     plan = []
     for l in range(n):
@@ -293,6 +365,9 @@ def corpus():
         # one options-form decorator object reused for two functions: equal arguments must not share
         cache2_case([k([0]), k([0]), k([3])], [k([0]), k([3]), k([0])]),
         cache2_case([k([0]), k([1], [[0, 3]])], [k([1], [[0, 3]]), k([0]), k([0])], order=[0, 0, 1, 1, 1]),
+        # ... the same for the buffer and the batcher: own buffer / own batcher registry per function
+        buffer2_case(3, BUF2_PROBES[0]),
+        batcher2_case(dict(max_batch_size=2, retention_timeout=40), BAT2_PROBES[0]),
         # the doctests of the batcher in all forms
         batcher_case(dict(max_batch_size=2), [c(1), c(2), c(3), c(4), a(1), f(0), f(1), a(60)]),
         # F7 (fixed): retention_timeout given through the decorator-with-options form
@@ -366,6 +441,13 @@ def gen_exhaustive(tier, seed):
     lb = [k([0]), k([3], [[0, 0]]), k([0])]
     for order in sorted(set(itertools.permutations([0, 0, 0, 1, 1, 1]))):
         out.append(cache2_case(la, lb, order=order))
+    # buffer / batcher: one options-form decorator object applied to two functions
+    for t in (None, 3, 50, 200):
+        for p in BUF2_PROBES:
+            out.append(buffer2_case(t, p))
+    for cfg in BAT2_CFGS:
+        for p in BAT2_PROBES:
+            out.append(batcher2_case(cfg, p))
     # loops: 1..3 loops one after another, each closed before the next / left open
     lcfgs = [{}, dict(max_batch_size=2), dict(max_batch_size=2, retention_timeout=40),
              dict(max_batch_size=1, max_concurrent_batches=1, batch_timeout=5, retention_timeout=5)]
@@ -412,7 +494,32 @@ def _rand_cfg(rnd):
     return cfg
 
 
+def _rand_case2(rnd):
+    """two functions under one decorator object: a random merge of two random scripts"""
+    if rnd.random() < 0.4:
+        sc, n = [], [0, 0]
+        for _ in range(rnd.randint(3, 12)):
+            if rnd.random() < 0.55:
+                j = rnd.randrange(2)
+                sc.append(['sub', j, n[j]])
+                n[j] += 1
+            else:
+                sc.append(a(rnd.choice([1, 2, 3, 7, 10, 50, 200, 1024])))
+        sc.append(a(1100))
+        return buffer2_case(rnd.choice([None, 1, 2, 3, 10, 50, 200]), sc)
+    sc = []
+    for e in _rand_bscript(rnd, rnd.randint(4, 18), nkeys=4):
+        sc.append(e if e[0] == 'adv' else [e[0], rnd.randrange(2), e[1]])
+    sc.append(a(300))
+    if rnd.random() < 0.5:
+        sc += [['fin', j, b] for b in range(3) for j in (0, 1)] + [a(100)]
+    return batcher2_case(_rand_cfg(rnd), sc)
+
+
 def _rand_case(rnd):
+    r = rnd.random()
+    if r < 0.1:
+        return _rand_case2(rnd)
     r = rnd.random()
     if r < 0.55:
         sc = _rand_bscript(rnd, rnd.randint(3, 16)) + [a(300)]
@@ -468,11 +575,11 @@ def shrink_candidates(case):
         return out
     if k == 'cache':
         return [dict(x, k='cache') for x in K14.shrink_candidates(case)]
-    if k in ('buffer', 'batcher'):
+    if k in ('buffer', 'batcher', 'buffer2', 'batcher2'):
         sc = case['script']
         for i in range(len(sc)):
             out.append(dict(case, script=sc[:i] + sc[i + 1:]))
-        if k == 'batcher':
+        if k in ('batcher', 'batcher2'):
             for o in list(case['cfg']):
                 out.append(dict(case, cfg={p: v for p, v in case['cfg'].items() if p != o}))
         return out
@@ -489,14 +596,14 @@ def shrink_candidates(case):
 
 
 def distribution(cases, obs):
-    d = dict(cache=0, cache2=0, buffer=0, batcher=0, loops=0, loops_threaded=0, loops_with_close=0,
+    d = dict(cache=0, cache2=0, buffer=0, buffer2=0, batcher=0, batcher2=0, loops=0, loops_threaded=0, loops_with_close=0,
              batches_started=0, callers_answered=0, flushes=0, joint_configs=0, default_configs=0)
     for o in OPTS:
         d['alone_' + o] = 0
         d['set_' + o] = 0
     for cs, ob in zip(cases, obs):
         d[cs['k']] += 1
-        if cs['k'] in ('batcher', 'loops'):
+        if cs['k'] in ('batcher', 'batcher2', 'loops'):
             cfg = cs['cfg']
             for o in cfg:
                 d['set_' + o] += 1
@@ -518,6 +625,12 @@ def distribution(cases, obs):
                 d['callers_answered'] += sum(1 for x in t['dones'] if x is not None)
         elif cs['k'] == 'buffer':
             d['flushes'] += len(ob['deco'])
+        elif cs['k'] == 'buffer2':
+            d['flushes'] += len(ob['deco'][0]) + len(ob['deco'][1])
+        elif cs['k'] == 'batcher2':
+            for t in ob['deco']:
+                d['batches_started'] += len(t['starts'])
+                d['callers_answered'] += sum(1 for x in t['dones'] if x is not None)
     return d
 
 
@@ -529,24 +642,35 @@ def translate():
 RULE = ('cases = one scripted event list (virtual time, harness-owned batch / buffered / cached functions) run against '
         'the SAME options in the forms deco(func, opt=...), deco(opt=...)(func) and the class itself; the three traces '
         'must be equal (monitor) and equal to the reference semantics of coq/theories/Options.v for that configuration '
-        '(agree).  exhaustive layer: batcher — every option alone at 2-3 non-default values, every joint assignment '
+        '(agree); agree also evaluates, on every buffer / batcher / loops case, that this small reference semantics equals '
+        'the FULL component model (Buffer.v / Batcher.v run on the translated script, OptionsRef.v).  exhaustive layer: '
+        'batcher — every option alone at 2-3 non-default values, every joint assignment '
         '(4x3x3x3 = 108 configurations) x 6 probe scripts; buffer — 6 timeouts x 5 probes; cache — every mapping kind x '
-        'prefill x loop mode x 2 scripts (which mapping received the entries), and ONE options-form decorator object applied '
-        'to two functions vs. two direct wrappings, all 20 interleavings of two 3-call lists (stores must stay private); per-loop registry — 1..3 loops one after '
+        'prefill x loop mode x 2 scripts (which mapping received the entries); ONE options-form decorator object applied '
+        'to two functions vs. two direct wrappings — cache: all 20 interleavings of two 3-call lists (stores must stay '
+        'private), buffer_until_timeout(timeout=...): 4 timeouts x 3 interleaved scripts, async_background_batcher(...): 6 '
+        'configurations x 3 interleaved scripts with overlapping keys (own buffer / own batcher registry per function); '
+        'per-loop registry — 1..3 loops one after '
         'another (closed before the next / left open), every interleaving of two loops\' three segments, 3 loops round '
-        'robin, 2..3 loops in real threads at once.  random layer: random configurations, scripts and loop plans.  '
+        'robin, 2..3 loops in real threads at once.  random layer: random configurations, scripts, two-function merges and loop plans.  '
         'non-trivial (Case_C15.nontrivial) = something was dispatched/flushed/invoked and, when an option is set, the '
         'reference trace for the configuration differs from the reference trace of the default configuration (the '
-        'script separates "option honoured" from "option dropped"); loops: at least two loops ran batches')
+        'script separates "option honoured" from "option dropped"); loops: at least two loops ran batches; two-function '
+        'cases: both functions were called / flushed')
 EXHAUSTIVE_NOTE = ('all 108 batcher configurations over the probe values x 6 probe scripts; all 6 buffer timeouts x 5 probes; '
-                   'all 20 interleavings of two loops\' three segments; successive 1..3 loops closed / left open')
+                   'all 20 interleavings of two loops\' three segments; successive 1..3 loops closed / left open; all 20 '
+                   'interleavings of two 3-call lists under one cache decorator object')
 ASSUMPTIONS = ['asyncio primitives (Queue, wait_for, Semaphore FIFO, call_later, shield) are modelled by the small reference '
-               'semantics Options.bstep / buf_run on cancellation-free, failure-free scripts',
+               'semantics Options.bstep / buf_run on cancellation-free, failure-free scripts (tied to the full models '
+               'Buffer.v / Batcher.v: proved for the buffer and for the batcher with retention_timeout = 0 or while no '
+               'batch function returns; evaluated on every case otherwise)',
                'virtual time: every instant is a multiple of 1/5 tick; ties between a library timer and a scripted event are '
-               'resolved as harness/vloop.py does (timer first)',
-               'a closed loop is never used again (loop ids are not reused by the harness)']
+               'resolved as harness/vloop.py does (timer first); batch_timeout = 0 is outside the modelled class (the '
+               'timed q.get() then expires within the same loop iteration as the call)',
+               'a closed loop is never used again (loop ids are not reused by the harness) — plan_wf; buffer scripts hand '
+               'each argument to the buffer once — buf_wf (both are hypotheses of the completeness theorems)']
 TRUSTED = ['harness/c15_translate.py (option lists from the AST, fail-closed), harness/c15_drive.py, harness/vloop.py, '
-           'harness/props/C15.py, coq/theories/Case_C15.v (agree/ok)',
+           'harness/props/C15.py, coq/theories/Case_C15.v (agree/ok; ok is proved sound and complete, props/C15.v)',
            'modelled, not verified: asyncio.Queue / wait_for / Semaphore / call_later, weakref.WeakKeyDictionary, functools.partial']
 ALLOWED_AXIOMS = []
 LEVEL_TEXT = ('gen/T_Options.v lists, from the AST of the current source, the keyword-only options of the three decorators, the '
@@ -555,11 +679,27 @@ LEVEL_TEXT = ('gen/T_Options.v lists, from the AST of the current source, the ke
               'applied under its own name, documented_options_accepted that the options the property names exist; '
               'per_loop_independent proves for the product construction loop -> object, generically in the single-object step '
               'function, that an event addressed to one loop changes no other component and that each component equals the '
-              'single-object run of the events addressed to it (any number of loops, successive or interleaved).  Tied to '
+              'single-object run of the events addressed to it (any number of loops, successive or interleaved).  '
+              'The trace monitor is proved complete — monitor_complete_buffer / _batcher / _loops / _reuse: it accepts every '
+              'case whose traces are the reference semantics, for ALL configurations and all well-formed scripts / plans — '
+              'and sound — monitor_sound_buffer / _batcher / _loops / _reuse: an accepted case means equal traces in all forms, '
+              'flushes exactly `timeout` after their last submission, batches of 1..max_batch_size submitted keys, answers '
+              'from a batch containing the key, every loop equal to its solo run.  The small reference semantics is tied to '
+              'the full component models: buffer_reference_refines_full_model (all timeouts, all scripts: Buffer.v on the '
+              'translated script calls the function at the instants and with the sets of buf_run) and '
+              'batcher_reference_refines_full_model_ret0_partial / _nofin_partial (batch starts of Batcher.v = those of '
+              'Options.brun for every script when retention_timeout = 0, and for every configuration while no batch function '
+              'returns; by a simulation relation).  Tied to '
               '/repo by running every option, alone and jointly, in all three forms on identical virtual-time scripts and '
-              'comparing with a reference semantics inside Coq, and by running one decorated batcher on 1..3 loops '
-              'successively / interleaved / in parallel threads.')
-LEVEL_NOTE = ('trusted: Coq kernel + vm_compute; no axioms; translator; virtual-time harness; the reference semantics of buffer '
-              'and batcher in Options.v are validated only by the correspondence (their own properties are C03/C04/C07-C11)')
+              'comparing with the reference semantics inside Coq, by applying one options-form decorator object to two '
+              'functions, and by running one decorated batcher on 1..3 loops successively / interleaved / in parallel threads.')
+LEVEL_NOTE = ('trusted: Coq kernel + vm_compute; no axioms; translator; virtual-time harness.  The reference semantics of buffer '
+              'and batcher in Options.v are validated by the correspondence and compared with Buffer.v / Batcher.v on every '
+              'case; the refinement is PROVED for the buffer, and for the batcher except scripts where a batch function '
+              'returns while retention_timeout > 0 (retained results and expiry timers: evaluated only).  The components\' own '
+              'properties are C03/C04/C07-C11.  Monitor fix found by proving completeness: the batch-size bound is '
+              'max(1, max_batch_size) (max_batch_size = 0 hands over singletons).')
 TECHNIQUE = ('AST translation + Coq proof by computation over the generated finite option tables; generic product-construction '
-             'theorem; differential correspondence of three forms under virtual time evaluated by vm_compute')
+             'theorem; monitor completeness (invariant of the reference semantics) and soundness; refinement of the small '
+             'reference semantics to the full Buffer/Batcher models by simulation relations + executable comparison on every '
+             'case; differential correspondence of three forms under virtual time evaluated by vm_compute')
